@@ -55,7 +55,7 @@ HOLDING_HARNESSES = [
     holding("holding-2", {"maxheld": 2, "fixrates": 1}, {"maxheld": 2, "fixrates": 1}),
 ]
 RESTARTCHAIN = {"id": "restart-chain", "func": "VerifRestartChain", "pkg": NODE, "pkgname": "node", "load": ["./node"],
-             "params": {"quick": {}, "thorough": {}}, "must_cover": ["restarted", "no-restart"], "max_witness_replays": 4}
+             "params": {"quick": {}, "thorough": {}}, "must_cover": ["restarted", "no-restart", "real-start-up-code"], "max_witness_replays": 4}
 SYNCBLOCKFAULT = {"id": "syncblock-fault", "func": "VerifSyncBlockFault", "pkg": NODE, "pkgname": "node", "load": ["./node"],
              "params": {"quick": {}, "thorough": {}}, "must_cover": ["reference-applied", "fault-failed-block"], "max_witness_replays": 4}
 APIREADS = {"id": "api-reads", "func": "VerifAPIReads", "pkg": "srv", "pkgname": "srv", "load": ["./srv"],
@@ -118,6 +118,10 @@ PROPS = {
     "C04": {
         "asserts": ["C04.", "uncaught-panic"],
         "harnesses": BATCH_HARNESSES + HOLDING_HARNESSES + [PEGBATCH] + [
+            # the one-time supply events inside the real sync loop (burn-address zeroings, mint, burn of the mint)
+            {"id": "syncloop-scheduled", "func": "VerifSyncLoop", "pkg": NODE, "pkgname": "node", "load": ["./node"],
+             "params": {"quick": {"mode": 0}, "thorough": {"mode": 0}},
+             "must_cover": ["completed", "old-burn-zeroing", "v202-activation", "v204-mint", "v204-burn-minted"], "max_witness_replays": 3},
             {"id": "scheduled", "func": "VerifScheduled", "pkg": NODE, "pkgname": "node", "load": ["./node"],
              "params": {"quick": {}, "thorough": {}}, "must_cover": ["nullify-mint"], "max_witness_replays": 2}],
         "bounds": {"quick": "as C03 (same harness, supply/recipient assertions); the one-time burn of the minted remainder", "thorough": "as C03"},
@@ -291,6 +295,9 @@ PROPS = {
             {"id": "obj-decode", "func": "VerifObjDecode", "pkg": "fat/fat2", "pkgname": "fat2", "load": ["./fat/fat2"],
              "params": {"quick": {"maxmembers": 4}, "thorough": {"maxmembers": 5}},
              "must_cover": ["canonical", "not-canonical"], "max_witness_replays": 8},
+            # "known tickers": canonical spelling of 6 asset names (incl. the first and the last of the enumeration) and 8 near misses each
+            {"id": "ticker-decode", "func": "VerifTickerDecode", "pkg": "fat/fat2", "pkgname": "fat2", "load": ["./fat/fat2"],
+             "params": {"quick": {}, "thorough": {}}, "must_cover": ["canonical-name", "near-miss"], "max_witness_replays": 4},
         ],
         "wall": {"quick": 400, "thorough": 3000},
         "bounds": {"quick": "decimal strings of the accepted shape with 0..20 integer digits and 0..9 fraction digits, every digit symbolic; decoded batches of 0..2 transactions with 0..2 transfers, all amounts uint64, tickers over the full range; the three length-checked decoders (Transaction, TransactionBatch, AddressAmountTuple) over JSON objects of 1..4 members drawn with repetition and in any order from their known keys and an unknown key (transfers value: a list, [] or null)",
